@@ -93,6 +93,27 @@ func registerBig(e *Engine) {
 		}
 		return dst, nil
 	})
+	// Bytes: big-endian, no leading zero bytes. Modelled for values of up to 192 bytes whose
+	// most significant byte is non-zero (192 bytes) or zero with a non-zero next byte (191 bytes).
+	e.reg(B+"Bytes", func(ex *Exec, fn *ssa.Function, args []Value) (Value, *PanicV) {
+		c := ex.ctx
+		x := ex.bigGet(args[0])
+		if x.isConst {
+			b := x.BigVal().Bytes()
+			return ex.newByteSlice(ex.litNode(b), c64(c, uint64(len(b))), c64(c, uint64(len(b)))), nil
+		}
+		if !ex.branch(c.Eq(c.Extract(x, bigW-1, 1536), c.zero(bigW-1536))) {
+			ex.unsupported("big.Int.Bytes of a value above 2^1536")
+		}
+		if !ex.branch(c.Eq(c.Extract(x, 1535, 1528), c.BVConst(0, 8))) {
+			return ex.newByteSlice(ex.bvNode(c.Extract(x, 1535, 0), 192, true), c64(c, 192), c64(c, 192)), nil
+		}
+		if ex.branch(c.Eq(c.Extract(x, 1527, 1520), c.BVConst(0, 8))) {
+			ex.eng.noteOnce("big.Int.Bytes: values with two or more leading zero bytes are not explored")
+			panic(pathEnd{kind: "infeasible"})
+		}
+		return ex.newByteSlice(ex.bvNode(c.Extract(x, 1527, 0), 191, true), c64(c, 191), c64(c, 191)), nil
+	})
 	e.reg(B+"Bit", func(ex *Exec, fn *ssa.Function, args []Value) (Value, *PanicV) {
 		c := ex.ctx
 		x := ex.bigGet(args[0])
